@@ -122,6 +122,18 @@ PROPS.update({
         "level_text": "PARTIAL proof: (F1) representation invariant of the suffix dictionary, (F2) insert against the abstract view (hit: some live entry equals the suffix up to ASCII case, nothing changes; miss: exactly slot `index` is replaced, every other slot untouched), (F3) the offset remembered for a suffix is its position in the OUTPUT, (F4) what the name emitter appends is whole labels followed by nothing or one pointer below 0x4000 that stands for at least 3 bytes, (F5) a compressed name/record/packet is never longer than the original, (F6) every record of every section is re-emitted, OPT included, (F7) the RDLENGTH written back equals the data bytes emitted; compress() succeeds exactly on accepted packets and copies the header. NOT proved by contracts: that a pointer designates the suffix it stands for in the output, that the result is accepted, and message equality -- these clauses are exercised only by the differential replay (compress, re-parse, compare, decompress)",
         "technique": "Verus data-structure invariant + view-based postconditions for the dictionary; frame/length/count contracts for the emitter and the section loops; remaining clauses by differential replay (stated)",
     },
+    "C07": {
+        "title": "Renaming rewrites exactly the matching names and nothing else",
+        "units": ["U8"],
+        "cone": [r"Renamer::", r"spec/(rename|dict|locality|names)\\.rs", r"Compress::(copy_compressed_name|copy_compressed_name_with_base_offset|copy_uncompressed_name|indirections|raw_name_len)$", r"SuffixDict::", r"ResponseIterator::", r"QuestionIterator::", r"ParsedPacket::(into_iter_|copy_header)"],
+        "witness": ("c07", 3000),
+        "level": "proof", "design_ref": "DESIGN.md section 5 C07",
+        "assumptions": ["source and target are well-formed pointer-free names under the parser's character policy (is_cname), both non-root: the property's quantifier",
+                        "on an Err exit taken while an iterator is still alive, 'the packet object is unchanged' is not stated (Verus does not resolve the prophecy of the live iterator at a `?` exit); it is stated for Ok exits",
+                        "units with iterator client loops are verified with --no-lifetime"],
+        "level_text": "PARTIAL proof: replace_raw is proved EQUAL to replace_spec (label-aligned, case-insensitive exact/suffix match; result = kept labels ++ target; TooLong exactly when the result would exceed 255) for all well-formed names; copy_with_replaced_name fails exactly when replace_spec is TooLong and otherwise appends the compressed form (whole labels + at most one pointer) of the rewritten -- or, without a match, the original -- expanded name, which is again a clean name; every name-bearing record type writes RDLENGTH == bytes appended after the 10-byte header (one obligation per arm: NS/CNAME/PTR, MX, SOA); the OPT record is copied by the generic arm in place; the section walks only read the packet object; header copied. NOT proved by contracts: that the output is accepted and whole-message equality (differential replay only); ParsedPacket::rename_with_raw_names (re-parse wrapper with its four assert_eq! on the EDNS summary) is not under contract",
+        "technique": "Verus functional contract of replace_raw against a spec function + per-record bookkeeping obligations on the extracted renamer; remaining clauses by differential replay (stated)",
+    },
     "C13": {
         "title": "Record text synthesises to the right wire record; bad text is an error",
         "units": ["U5"],
